@@ -2,11 +2,11 @@
     Three layers, all machine-checked:  (1) real analysis: the Euler factor (1-x)^k against e^{-kx};  (2) the explicit recurrence the
     solver performs on  w' = A - kap w  against the exponential solution: speed within (2/5) kap dt |w0 - w_inf| and position within
     dt |w0 - w_inf| of the closed form at every instant, for every step count;  (3) REFINEMENT: every history of the solver model
-    (coq/Solver.v, tied to gearpy bit for bit) that is never held, at a constant duty cycle above the dead zone of a motor with
+    (coq/Solver.v, tied to gearpy bit for bit) that is never held, at a constant duty cycle OF EITHER SIGN outside the dead zone of a motor with
     current data, constant step and constant load, has the SI speed and position of its output element equal to that recurrence, with
     A and kap explicit in ratios, efficiencies, inertias, motor constants and load — for chains of any length and quantities in any units.
     Not covered by (3), hence _partial there (correspondence + the dt-halving search on the implementation): motors without current
-    data, negative duty cycles, and the two-sided first-order statement "the error roughly halves" (only the O(dt) upper bound is proved).
+    data, and the two-sided first-order statement "the error roughly halves" (only the O(dt) upper bound is proved).
     Rounding of the binary64 run is not part of the theorems. *)
 From Coq Require Import ZArith QArith Reals Lra String List Bool PrimFloat.
 From Coquelicot Require Import Coquelicot.
@@ -29,17 +29,23 @@ Theorem C04_model_acceleration : forall (c : @chain RA) load i0 imax, m_i0 (c_mo
   (forall t p w lt, load t p w = Ok lt -> qk lt = KTorque /\ si lt = Ok L) ->
   forall ctl J t f v locked prov (s : @snap RA) JJ wl w,
   instant_facts c load ctl J t f v locked prov s -> s_locked s = false ->
-  si J = Ok JJ -> qk J = KInertiaMoment -> lastq (s_spd s) = Ok wl -> si wl = Ok w -> I0 / IM < s_pwm s ->
+  si J = Ok JJ -> qk J = KInertiaMoment -> lastq (s_spd s) = Ok wl -> si wl = Ok w -> 0 <= I0 / IM -> I0 / IM < Rabs (s_pwm s) ->
   let D := s_pwm s in
-  let TD := TM * ((D * IM - I0) / (IM - I0)) in
+  let TD := (if Rlt_dec 0 D then TM * ((D * IM - I0) / (IM - I0)) else TM * ((D * IM + I0) / (IM - I0))) in
   exists a, lastq (s_acc s) = Ok a /\ si a = Ok ((TD * (1 - Rr c * w / (D * W0)) * Gg c - L) / JJ).
 Proof. exact instant_acceleration_SI. Qed.
+(** the coefficients of the linear equation of motion  w' = A - kap w  of the output element, spelled out: TD is the maximum torque at duty
+    cycle D (either sign), G the product of ratio x efficiency along the chain, R the product of the ratios *)
+Theorem C04_coefficients : forall (c : @chain RA) W0 TM I0 IM L JJ D,
+  let TD := (if Rlt_dec 0 D then TM * ((D * IM - I0) / (IM - I0)) else TM * ((D * IM + I0) / (IM - I0))) in
+  A_lin c TM I0 IM L JJ D = (TD * Gg c - L) / JJ /\ kap_lin c W0 TM I0 IM JJ D = TD * Gg c * Rr c / (D * W0 * JJ).
+Proof. intros. split; reflexivity. Qed.
 (** refinement + bound: the model's own trajectory stays within the bound of the closed form at every recorded instant *)
 Theorem C04_model_converges : forall (c : @chain RA) load i0 imax, m_i0 (c_motor c) = Some i0 -> m_imax (c_motor c) = Some imax ->
   forall W0 TM I0 IM L, si (m_w0 (c_motor c)) = Ok W0 -> si (m_Tmax (c_motor c)) = Ok TM -> si i0 = Ok I0 -> si imax = Ok IM ->
   qk (m_Tmax (c_motor c)) = KTorque -> qk i0 = KCurrent -> qk imax = KCurrent ->
   (forall t p w lt, load t p w = Ok lt -> qk lt = KTorque /\ si lt = Ok L) ->
-  forall JJ DT D J dt0, equivalent_inertia c = Ok J -> si J = Ok JJ -> qk J = KInertiaMoment -> si dt0 = Ok DT -> I0 / IM < D ->
+  forall JJ DT D J dt0, equivalent_inertia c = Ok J -> si J = Ok JJ -> qk J = KInertiaMoment -> si dt0 = Ok DT -> I0 / IM < Rabs D ->
   0 <= I0 /\ 0 < IM /\ 0 < W0 /\ 0 < JJ ->
   let A := A_lin c TM I0 IM L JJ D in let kap := kap_lin c W0 TM I0 IM JJ D in
   0 < kap -> kap * DT <= 1/5 -> 0 < DT ->
